@@ -158,6 +158,9 @@ package lib
 //@   requires addrFreeStr(stats.ClientConnErr) && addrFreeStr(stats.CovertConnErr)
 // C17: whatever errors the two connections return, the error texts kept for the tunnel summary are address-free
 //@   ensures @C17: addrFreeStr(stats.ClientConnErr) && addrFreeStr(stats.CovertConnErr)
+// ... and no log call of the relay formats a raw read error (the one that would is unreachable: a Read never
+// returns more than the buffer holds)
+//@   atcall Errorf before: assert @C17: er == nil || addrFree(er)
 //@   ensures @C05: !wfail(dst) ==> txh(dst) == rxh(src)
 //@   ensures @C05: closed(dst) && spawned_halfPipe_2(src)
 //@   ensures @C05: wgdone(wg) == old(wgdone(wg)) + 1
